@@ -219,6 +219,13 @@ pub fn run() {
         let circ = interleave(r, &circ);
         check_circuit("ancilla-postselect", i, &circ);
     });
+    par_cases("ancilla-postselect-float", n / 2, move |r, i| {
+        let mut p = CircParams::unitary(nq, depth, PhPool::Float);
+        p.ancilla = true;
+        let circ = gen_circuit(r, &p);
+        let circ = interleave(r, &circ);
+        check_circuit("ancilla-postselect-float", i, &circ);
+    });
     // many tiny circuits with heavy ancilla/post-selection use: local simplification during
     // translation (simplify mode) meets leaves, duplicated neighbourhoods and Clifford phases
     par_cases("tiny-ancilla-dense", n * 4, move |r, i| {
@@ -290,7 +297,14 @@ pub fn run() {
                     b
                 }
             };
-            let ph = (r.range(-3, 4), 4);
+            // mostly the pi/4 grid; now and then thirds, fifths, sixths, eighths, twelfths
+            let ph = if r.chance(0.25) {
+                let d = *r.pick(&[3i64, 3, 6, 5, 8, 12]);
+                let q = quizx::phase::Phase::new(num::rational::Rational64::new(r.range(-d + 1, d), d)).to_rational();
+                (*q.numer(), *q.denom())
+            } else {
+                (r.range(-3, 4), 4)
+            };
             let g = match r.below(14) {
                 0 => G::T(q),
                 1 => G::S(q),
